@@ -1,7 +1,844 @@
-//! C27 — not implemented yet (see DESIGN.md section 4).
-use kit::Run;
-use serde_json::Value;
+//! C27 — redirects never reach internal addresses, at most ten redirects, none when disabled, credential
+//! headers are not forwarded.
+//!
+//! S-env + S-inp, level model_checking. The SDK's redirect follower (hook `verif_hooks::net::redirect_resolver_*`)
+//! runs over a scripted recording transport; every hop's answer is a choice point.
+//!
+//!  * space A (deviation bound 1, FULL Location alphabet): the default script redirects to a fresh public URL on
+//!    every hop; for every hop position 0..=10 and every Location of the alphabet one run serves that Location there.
+//!    The alphabet has, for every boundary address (first, last, just below, just above) of every IPv4 block the
+//!    property names, EVERY notation of the WHATWG/`inet_aton` IPv4 grammar (1–4 parts x dec/hex/octal per part x
+//!    trailing dot, upper-case hex, percent-encoded and full-width-digit host spellings), the IPv4-mapped IPv6
+//!    spellings, IPv6 block boundaries in compressed/expanded/upper-case form, localhost names, userinfo/port
+//!    decorations, relative and scheme-relative forms, and non-constrained controls (IPv4-compatible, NAT64, public).
+//!  * space B (all scripts with <= 2 (quick) / <= 3 (thorough) deviations over a reduced answer alphabet): statuses
+//!    200/404/3xx with and without Location, one representative per forbidden class, relative forms; x
+//!    allow_redirects {true,false} x two request header sets x {sync, async}.
+//!  * space C (classifier sweep through the real code path `host_is_non_global(Uri)`): quick = every /16 x 6 low
+//!    words + three full /16 that contain /24 boundaries, mapped spellings of the same, all 2^16 leading IPv6
+//!    segments x 3 tails; thorough = ALL 2^32 IPv4 addresses, 2^26 mapped spellings, all 2^16 leading segments.
+//!
+//! Oracle (from the property text): no request after the first goes to a host in a forbidden class (independent
+//! classifier `kit::net::host_class` + by-construction truth of the generated Location); at most 11 requests per
+//! call; allow_redirects=false => no request after the first; requests after the first carry none of
+//! Authorization / Cookie / Proxy-Authorization / Host. Classifier sweep: address in a named block => classified
+//! non-global (one direction only).
+//!
+//! Mutants caught (tools/mutant_run.sh D <patch> C27 quick):
+//!   C27-drop-link-local.diff     (ipv4 link-local test removed)
+//!   C27-one-more-redirect.diff   (0..=MAX_REDIRECTS+1)
+//!   C27-forward-cookie.diff      (Cookie no longer stripped)
 
-pub fn run(_run: &Run, _replay: Option<&Value>) {
-    kit::ev::machinery("C27: check not implemented");
+use std::sync::{
+    atomic::{AtomicU64, Ordering},
+    Mutex,
+};
+
+use c2pa::http::{http::Uri, AsyncHttpResolver, SyncHttpResolver};
+use c2pa::verif_hooks::net as hooks;
+use kit::{
+    net::{self, Answer, Seen, Transport},
+    par, Run,
+};
+use serde_json::{json, Value};
+
+static CAP: net::KeyCap = net::KeyCap::new(20);
+const START: &str = "http://start.example/a/b?c=d";
+const SENSITIVE: [&str; 4] = ["authorization", "cookie", "proxy-authorization", "host"];
+
+// ---------------------------------------------------------------------------------------------
+// Location alphabet
+// ---------------------------------------------------------------------------------------------
+
+#[derive(Clone, Debug)]
+struct Loc {
+    text: String,
+    /// `Some(class)`: by construction this Location denotes a host in a forbidden class.
+    truth: Option<&'static str>,
+    family: &'static str,
+}
+
+fn fmt_part(v: u64, radix: u8) -> String {
+    match radix {
+        0 => format!("{v}"),
+        1 => format!("0x{v:x}"),
+        _ => format!("0{v:o}"),
+    }
+}
+
+/// Every notation of IPv4 address `a` in the inet_aton grammar.
+fn v4_notations(a: u32) -> Vec<String> {
+    let b = a.to_be_bytes().map(|x| x as u64);
+    let a = a as u64;
+    let shapes: [Vec<u64>; 4] = [
+        vec![a],
+        vec![b[0], a & 0xff_ffff],
+        vec![b[0], b[1], a & 0xffff],
+        vec![b[0], b[1], b[2], b[3]],
+    ];
+    let mut out = vec![];
+    for parts in shapes {
+        let n = parts.len();
+        for combo in 0..3usize.pow(n as u32) {
+            let mut c = combo;
+            let mut s = vec![];
+            for p in &parts {
+                s.push(fmt_part(*p, (c % 3) as u8));
+                c /= 3;
+            }
+            let h = s.join(".");
+            out.push(format!("{h}."));
+            out.push(h);
+        }
+    }
+    // upper-case hex spellings
+    out.push(format!("0X{a:X}"));
+    out.push(format!("0X{:X}.0X{:X}.0X{:X}.0X{:X}", b[0], b[1], b[2], b[3]));
+    out
+}
+
+fn dotted(a: u32) -> String {
+    let b = a.to_be_bytes();
+    format!("{}.{}.{}.{}", b[0], b[1], b[2], b[3])
+}
+
+fn pct(s: &str) -> String {
+    s.bytes().map(|b| format!("%{b:02X}")).collect()
+}
+
+/// boundary addresses of every named IPv4 block: first, last, just below, just above
+fn v4_boundaries() -> Vec<u32> {
+    let mut v = vec![];
+    for (net_, len, _) in net::V4_BLOCKS {
+        let first = *net_;
+        let last = *net_ | !net::v4_mask(*len);
+        v.push(first);
+        v.push(last);
+        if let Some(x) = first.checked_sub(1) {
+            v.push(x);
+        }
+        if let Some(x) = last.checked_add(1) {
+            v.push(x);
+        }
+    }
+    // well-known targets
+    v.extend([0xA9FE_A9FE, 0x7F00_0001, 0xC0A8_0101, 0x5DB8_D822, 0x0808_0808]);
+    v.sort();
+    v.dedup();
+    v
+}
+
+fn v6_boundaries() -> Vec<u128> {
+    let mut v = vec![];
+    for (net_, len, _) in net::V6_BLOCKS {
+        let mask = if *len == 0 { 0 } else { u128::MAX << (128 - *len as u32) };
+        let first = *net_;
+        let last = *net_ | !mask;
+        v.push(first);
+        v.push(last);
+        if let Some(x) = first.checked_sub(1) {
+            v.push(x);
+        }
+        if let Some(x) = last.checked_add(1) {
+            v.push(x);
+        }
+    }
+    v.extend([
+        0xfe80_0000_0000_0000_0000_0000_0000_0001u128,
+        0xfd00_0000_0000_0000_0000_0000_0000_0001,
+        0x2606_2800_0220_0001_0248_1893_25c8_1946,
+        0x2001_0db8_0000_0000_0000_0000_0000_0001,
+    ]);
+    v.sort();
+    v.dedup();
+    v
+}
+
+fn v6_notations(a: u128) -> Vec<String> {
+    let ip = std::net::Ipv6Addr::from(a);
+    let s = ip.segments();
+    let full = s.iter().map(|x| format!("{x:04x}")).collect::<Vec<_>>().join(":");
+    let short = s.iter().map(|x| format!("{x:x}")).collect::<Vec<_>>().join(":");
+    let mut v = vec![format!("{ip}"), full.clone(), full.to_uppercase(), short];
+    // dotted tail for the low 32 bits
+    let low = a as u32;
+    let head = s[..6].iter().map(|x| format!("{x:x}")).collect::<Vec<_>>().join(":");
+    v.push(format!("{head}:{}", dotted(low)));
+    v.sort();
+    v.dedup();
+    v
+}
+
+fn full_alphabet() -> Vec<Loc> {
+    let mut v: Vec<Loc> = vec![];
+    let mut push = |text: String, truth: Option<&'static str>, family: &'static str| v.push(Loc { text, truth, family });
+    for a in v4_boundaries() {
+        let truth = net::v4_class(a);
+        for n in v4_notations(a) {
+            push(format!("http://{n}/x"), truth, "ipv4-notation");
+        }
+        let d = dotted(a);
+        // decorations and other schemes / relative forms on the canonical spelling
+        push(format!("https://{d}/"), truth, "ipv4-decorated");
+        push(format!("http://{d}:8080/p?q#f"), truth, "ipv4-decorated");
+        push(format!("http://user:pw@{d}/"), truth, "ipv4-decorated");
+        push(format!("http://pub.example@{d}/"), truth, "ipv4-decorated");
+        push(format!("//{d}/x"), truth, "ipv4-decorated");
+        push(format!("http:\\\\{d}\\x"), truth, "ipv4-decorated");
+        push(format!("HTTP://{d}"), truth, "ipv4-decorated");
+        // percent-encoded and full-width spellings of the host (decoded / mapped by the URL parser)
+        push(format!("http://{}/", pct(&d)), truth, "ipv4-pct");
+        let fw: String = d.chars().map(|c| if c.is_ascii_digit() { char::from_u32(0xFF10 + (c as u32 - '0' as u32)).unwrap() } else { c }).collect();
+        push(format!("http://{}/", pct(&fw)), truth, "ipv4-pct-fullwidth");
+        push(format!("http://{}/", d.replace('.', "%E3%80%82")), truth, "ipv4-pct-ideographic-stop");
+        // IPv4-mapped IPv6 spellings
+        let b = a.to_be_bytes();
+        let (hi, lo) = (u16::from_be_bytes([b[0], b[1]]), u16::from_be_bytes([b[2], b[3]]));
+        for m in [
+            format!("[::ffff:{d}]"),
+            format!("[::ffff:{hi:x}:{lo:x}]"),
+            format!("[0:0:0:0:0:ffff:{d}]"),
+            format!("[::FFFF:{hi:04X}:{lo:04X}]"),
+            format!("[0000:0000:0000:0000:0000:ffff:{hi:04x}:{lo:04x}]"),
+        ] {
+            push(format!("http://{m}/x"), truth, "ipv4-mapped");
+            push(format!("http://{m}:8080/x"), truth, "ipv4-mapped");
+        }
+        // controls the property does not constrain (reported as outcomes only)
+        push(format!("http://[::{d}]/"), None, "control-ipv4-compatible");
+        push(format!("http://[64:ff9b::{d}]/"), None, "control-nat64");
+        push(format!("http://[::ffff:0:{d}]/"), None, "control-ipv4-translated");
+        push(format!("http://{d}.example/"), None, "control-name");
+    }
+    for a in v6_boundaries() {
+        let truth = net::v6_class(a);
+        for n in v6_notations(a) {
+            push(format!("http://[{n}]/x"), truth, "ipv6");
+            push(format!("https://u@[{n}]:8443/x"), truth, "ipv6");
+        }
+    }
+    for (name, truth) in [
+        ("localhost", Some("localhost")),
+        ("LOCALHOST", Some("localhost")),
+        ("LocalHost", Some("localhost")),
+        ("localhost.", Some("localhost")),
+        ("x.localhost", Some("localhost")),
+        ("a.b.LOCALHOST.", Some("localhost")),
+        ("%6Cocalhost", Some("localhost")),
+        ("%6c%6f%63%61%6c%68%6f%73%74", Some("localhost")),
+        ("notlocalhost", None),
+        ("localhost.example", None),
+        ("localhost.example.", None),
+        ("pub.example", None),
+    ] {
+        for deco in ["http://{}/", "https://{}:8443/x", "http://user@{}/", "//{}/x"] {
+            push(deco.replace("{}", name), truth, "name");
+        }
+    }
+    // ASCII tab inside the URL (legal in a header value; the URL parser removes it)
+    push("http://127.0.0.\t1/x".to_string(), Some("loopback"), "tab-in-url");
+    push("http://local\thost/x".to_string(), Some("localhost"), "tab-in-url");
+    push("ht\ttp://169.254.169.\t254/x".to_string(), Some("link-local"), "tab-in-url");
+    push("http://pub.example\t/x".to_string(), None, "tab-in-url");
+    // relative forms and other schemes (never forbidden by themselves: they stay on the current public host or have no host)
+    for r in ["/x", "x", "../x", "?q=1", "#f", "", ".", "//", "///127.0.0.1/x", "http:/127.0.0.1/x", "http:127.0.0.1", "ftp://pub.example/x", "file:///etc/passwd", "data:text/plain,x", "javascript:alert(1)", "mailto:a@127.0.0.1", "http://", "http://[::1", "http://256.256.256.256/", "http://1.2.3.4.5/", "http://0x100000000/"] {
+        push(r.to_string(), None, "relative-or-odd");
+    }
+    v
+}
+
+// ---------------------------------------------------------------------------------------------
+// running a script
+// ---------------------------------------------------------------------------------------------
+
+fn default_answer(hop: usize) -> Answer {
+    Answer::redirect(302, &format!("http://pub{hop}.example/p{hop}?k={hop}"))
+}
+
+#[derive(Debug, Clone)]
+struct Obs {
+    seen: Vec<Seen>,
+    result: String,
+}
+
+fn header_set(id: usize) -> (&'static str, Vec<(&'static str, &'static str)>, Vec<u8>) {
+    match id {
+        0 => (
+            "GET",
+            vec![
+                ("Authorization", "Bearer s3cr3t"),
+                ("Cookie", "sid=1"),
+                ("Proxy-Authorization", "Basic eDp5"),
+                ("Host", "start.example"),
+                ("Accept", "*/*"),
+                ("X-Trace", "t-1"),
+            ],
+            vec![],
+        ),
+        _ => (
+            "POST",
+            vec![
+                ("AUTHORIZATION", "Bearer s3cr3t"),
+                ("authorization", "Basic second"),
+                ("cookie", "a=1"),
+                ("COOKIE", "b=2"),
+                ("proxy-authorization", "Basic eDp5"),
+                ("host", "start.example"),
+                ("content-type", "application/timestamp-query"),
+            ],
+            vec![1, 2, 3],
+        ),
+    }
+}
+
+fn run_script(script: impl Fn(usize) -> Answer + Send + Sync + 'static, allow: bool, hset: usize, is_async: bool) -> Obs {
+    let t = Transport::new(move |i, _| script(i));
+    let (method, headers, body) = header_set(hset);
+    let req = net::request(method, START, &headers, body).unwrap_or_else(|| kit::ev::machinery("C27: start request not constructible"));
+    let r = if is_async {
+        let stack = hooks::redirect_resolver_async(t.clone(), allow);
+        par::guard(|| net::block_on(stack.http_resolve_async(req)))
+    } else {
+        let stack = hooks::redirect_resolver_sync(t.clone(), allow);
+        par::guard(|| stack.http_resolve(req))
+    };
+    let result = match r {
+        Err(p) => format!("PANIC {p}"),
+        Ok(Ok(resp)) => format!("Ok({})", resp.status().as_u16()),
+        Ok(Err(e)) => format!("Err({})", net::err_class(&e)),
+    };
+    Obs { seen: t.seen(), result }
+}
+
+/// The four rules of the property on one observation. `forbidden_truth[k]`: request k+1 follows a Location that by
+/// construction denotes a forbidden host (class).
+fn judge(run: &Run, space: &str, allow: bool, obs: &Obs, truth_after: &dyn Fn(usize) -> Option<&'static str>, case: &Value) {
+    if obs.result.starts_with("PANIC") {
+        CAP.violation(run, format!("panic space={space}"), || obs.result.clone(), || case.clone());
+    }
+    if obs.seen.is_empty() {
+        kit::ev::machinery(format!("C27: the initial request did not reach the transport: {obs:?}"));
+    }
+    // precondition: the initial request carried the sensitive headers
+    for h in SENSITIVE {
+        if !obs.seen[0].has_header(h) {
+            kit::ev::machinery(format!("C27: initial request lacks header {h}"));
+        }
+    }
+    if obs.seen.len() > 11 {
+        CAP.violation(run, format!("too-many-requests n={}", obs.seen.len()), || format!("{} requests were sent for one call (more than ten redirects followed); result {}", obs.seen.len(), obs.result), || case.clone());
+    }
+    if !allow && obs.seen.len() > 1 {
+        CAP.violation(run, "redirect-followed-while-disabled", || format!("allow_redirects=false but {} requests were sent: {:?}", obs.seen.len(), obs.seen.iter().map(|s| &s.uri).collect::<Vec<_>>()), || case.clone());
+    }
+    for (k, s) in obs.seen.iter().enumerate().skip(1) {
+        let cls = net::uri_host_class(&s.uri).or_else(|| truth_after(k));
+        if let Some(c) = cls {
+            let notation = if net::uri_host_class(&s.uri).is_some() { "as-sent" } else { "by-construction" };
+            CAP.violation(run, format!("internal-target-reached class={c} via={notation}"), || format!("redirect hop #{k} was sent to {} (class {c}); chain {:?}", s.uri, obs.seen.iter().map(|s| &s.uri).collect::<Vec<_>>()), || case.clone());
+        }
+        for h in SENSITIVE {
+            if s.has_header(h) {
+                CAP.violation(run, format!("header-forwarded name={h}"), || format!("redirect hop #{k} to {} carries the {h} header: {:?}", s.uri, s.headers), || case.clone());
+            }
+        }
+    }
+}
+
+// ---------------------------------------------------------------------------------------------
+// space B alphabet
+// ---------------------------------------------------------------------------------------------
+
+#[derive(Clone, Debug)]
+struct Ans {
+    label: &'static str,
+    status: u16,
+    location: Option<&'static str>,
+    truth: Option<&'static str>,
+}
+
+fn reduced_answers(thorough: bool) -> Vec<Ans> {
+    let a = |label, status, location, truth| Ans { label, status, location, truth };
+    let mut v = vec![
+        a("200", 200, None, None),
+        a("404", 404, None, None),
+        a("302-no-location", 302, None, None),
+        a("200+location", 200, Some("http://127.0.0.1/"), None),
+        a("301-public", 301, Some("https://other.example/x"), None),
+        a("303-public", 303, Some("https://other.example/y"), None),
+        a("307-public", 307, Some("https://other.example/z"), None),
+        a("308-relative", 308, Some("/moved"), None),
+        a("300-relative2", 300, Some("../up?x#y"), None),
+        a("304-scheme-relative", 304, Some("//third.example/s"), None),
+        a("302-loopback", 302, Some("http://127.0.0.1/"), Some("loopback")),
+        a("302-loopback-hex", 302, Some("http://0x7f.1/"), Some("loopback")),
+        a("301-private", 301, Some("http://10.0.0.1:8080/x"), Some("private")),
+        a("307-metadata", 307, Some("http://169.254.169.254/latest/meta-data/"), Some("link-local")),
+        a("302-v6-loopback", 302, Some("http://[::1]/"), Some("loopback")),
+        a("302-mapped", 302, Some("http://[::ffff:127.0.0.1]/"), Some("loopback")),
+        a("302-ula", 302, Some("http://[fd00::1]/"), Some("unique-local")),
+        a("308-localhost", 308, Some("http://localhost:8080/"), Some("localhost")),
+        a("302-scheme-relative-internal", 302, Some("//192.168.1.1/"), Some("private")),
+        a("302-unspecified", 302, Some("http://0.0.0.0/"), Some("unspecified")),
+        a("302-multicast", 302, Some("http://224.0.0.1/"), Some("multicast")),
+        a("302-broadcast", 302, Some("http://255.255.255.255/"), Some("broadcast")),
+        a("302-documentation", 302, Some("http://192.0.2.1/"), Some("documentation")),
+        a("302-shared", 302, Some("http://100.64.0.1/"), Some("shared")),
+        a("302-invalid-location", 302, Some("http://[::1"), None),
+        a("302-file", 302, Some("file:///etc/passwd"), None),
+    ];
+    if thorough {
+        v.extend([
+            a("302-v6-link-local", 302, Some("http://[fe80::1]/"), Some("link-local")),
+            a("302-v6-multicast", 302, Some("http://[ff02::1]/"), Some("multicast")),
+            a("302-userinfo-internal", 302, Some("http://pub.example@172.16.0.1/"), Some("private")),
+            a("302-x-localhost", 302, Some("http://x.LOCALHOST./"), Some("localhost")),
+        ]);
+    }
+    v
+}
+
+/// Call `f` on `script` and on every extension of it by up to `remaining` further deviations at later hop positions.
+fn extend(script: &mut Vec<(usize, usize)>, remaining: usize, positions: usize, answers: usize, f: &dyn Fn(&[(usize, usize)])) {
+    f(script);
+    if remaining == 0 {
+        return;
+    }
+    let from = script.last().map(|x| x.0 + 1).unwrap_or(0);
+    for p in from..positions {
+        for a in 0..answers {
+            script.push((p, a));
+            extend(script, remaining - 1, positions, answers, f);
+            script.pop();
+        }
+    }
+}
+
+fn count_scripts(positions: u64, answers: u64, max_dev: u64) -> u64 {
+    // sum over k<=max_dev of C(positions,k) * answers^k
+    let mut total = 0u64;
+    for k in 0..=max_dev {
+        let mut c = 1u64;
+        for i in 0..k {
+            c = c * (positions - i) / (i + 1);
+        }
+        total += c * answers.pow(k as u32);
+    }
+    total
+}
+
+// ---------------------------------------------------------------------------------------------
+
+pub fn run(run: &Run, replay: Option<&Value>) {
+    run.rule(
+        "state = distinct (script, allow_redirects, header set, sync|async) configuration executed on the real redirect follower (runs go to \
+         completion); transition = one request served by the scripted transport. non-trivial = runs in which every scripted deviation was \
+         actually consumed by the follower (space A/B), and classifier evaluations of addresses inside a named special block (space C).",
+    );
+    run.assume("the HTTP client below the redirect follower is a scripted transport (the real clients are configured not to follow redirects themselves; that configuration is not exercised here)");
+    run.assume("DNS names that resolve to internal addresses are out of scope (documented by the SDK as tracked separately); only the host text of the request is judged");
+    run.assume("forbidden blocks are the ones the property names, transcribed from the IANA IPv4/IPv6 special-purpose registries in kit::net::{V4_BLOCKS,V6_BLOCKS}");
+    if let Some(c) = replay {
+        replay_case(run, c);
+        return;
+    }
+    let thorough = run.tier.is_thorough();
+
+    // ---- determinism + seam liveness ---------------------------------------------------------
+    {
+        let o1 = run_script(default_answer, true, 0, false);
+        let o2 = run_script(default_answer, true, 0, false);
+        if o1.seen != o2.seen || o1.result != o2.result {
+            kit::ev::machinery("C27: undisturbed script is not deterministic");
+        }
+        if o1.seen.len() < 2 || !o1.result.starts_with("Err(TooManyRedirects") {
+            kit::ev::machinery(format!("C27: undisturbed script should run into the redirect limit, got {} after {} requests", o1.result, o1.seen.len()));
+        }
+        run.sample(json!({"script":"default (302 to a fresh public URL on every hop)","requests": o1.seen.iter().map(|s| s.uri.clone()).collect::<Vec<_>>(), "result": o1.result}));
+        run.evals(2);
+    }
+
+    // ---- space A -------------------------------------------------------------------------------
+    let alphabet = full_alphabet();
+    {
+        let mut fams: std::collections::BTreeMap<&str, (u64, u64)> = Default::default();
+        for l in &alphabet {
+            let e = fams.entry(l.family).or_default();
+            e.0 += 1;
+            if l.truth.is_some() {
+                e.1 += 1;
+            }
+        }
+        run.extra("location_alphabet", json!(fams.iter().map(|(k, v)| json!({"family": k, "values": v.0, "denoting_forbidden_host": v.1})).collect::<Vec<_>>()));
+        run.extra("ipv4_boundary_addresses", json!(v4_boundaries().len()));
+    }
+    let positions: Vec<usize> = (0..=10).collect();
+    let cases_a = alphabet.len() as u64 * positions.len() as u64;
+    run.space("A: hop position 0..=10 x full Location alphabet (one deviation, allow_redirects=true, sync; async at position 0)", cases_a + alphabet.len() as u64, true);
+    let a_followed = AtomicU64::new(0);
+    let a_blocked = AtomicU64::new(0);
+    let a_forbidden_blocked = AtomicU64::new(0);
+    let fam_out: Mutex<std::collections::BTreeMap<String, u64>> = Mutex::new(Default::default());
+    par::for_each_index(alphabet.len() as u64, |li| {
+        let loc = &alphabet[li as usize];
+        let mut local: std::collections::BTreeMap<String, u64> = Default::default();
+        for &pos in &positions {
+            for is_async in [false, true] {
+                if is_async && pos != 0 {
+                    continue;
+                }
+                let text = loc.text.clone();
+                let obs = run_script(
+                    move |i| {
+                        if i < pos {
+                            default_answer(i)
+                        } else if i == pos {
+                            Answer::redirect(302, &text)
+                        } else {
+                            Answer::ok()
+                        }
+                    },
+                    true,
+                    0,
+                    is_async,
+                );
+                run.eval();
+                run.states(1);
+                run.transitions(obs.seen.len() as u64);
+                run.traces(1);
+                let case = json!({"space":"A","pos":pos,"location":loc.text,"async":is_async});
+                let truth = loc.truth;
+                judge(run, "A", true, &obs, &|k| if k == pos + 1 { truth } else { None }, &case);
+                if obs.seen.len() > pos {
+                    run.nontrivial_n(1);
+                }
+                let followed = obs.seen.len() > pos + 1;
+                if followed {
+                    a_followed.fetch_add(1, Ordering::Relaxed);
+                } else {
+                    a_blocked.fetch_add(1, Ordering::Relaxed);
+                    if truth.is_some() {
+                        a_forbidden_blocked.fetch_add(1, Ordering::Relaxed);
+                    }
+                }
+                if pos == 0 && !is_async {
+                    *local.entry(format!("A:{}:{}", loc.family, if followed { "followed".to_string() } else { obs.result.clone() })).or_default() += 1;
+                }
+            }
+        }
+        let mut g = fam_out.lock().unwrap();
+        for (k, v) in local {
+            *g.entry(k).or_default() += v;
+        }
+    });
+    for (k, v) in fam_out.lock().unwrap().iter() {
+        run.outcome_n(k.clone(), *v);
+    }
+    run.extra("spaceA", json!({"followed": a_followed.load(Ordering::Relaxed), "not_followed": a_blocked.load(Ordering::Relaxed), "forbidden_by_construction_and_not_followed": a_forbidden_blocked.load(Ordering::Relaxed)}));
+    if run.violation_count() == 0 && (a_followed.load(Ordering::Relaxed) == 0 || a_forbidden_blocked.load(Ordering::Relaxed) == 0) {
+        kit::ev::machinery("C27: space A is vacuous (nothing followed or nothing blocked)");
+    }
+    for probe in ["http://0x7f.1/x", "http://[::ffff:a9fe:a9fe]/x", "http://%EF%BC%91%EF%BC%92%EF%BC%97.0.0.1/", "http://100.128.0.0/x"] {
+        let t = probe.to_string();
+        let o = run_script(move |i| if i == 0 { Answer::redirect(302, &t) } else { Answer::ok() }, true, 0, false);
+        run.sample(json!({"space":"A","pos":0,"location":probe,"requests": o.seen.iter().map(|s| s.uri.clone()).collect::<Vec<_>>(), "result": o.result}));
+    }
+
+    // ---- space B -------------------------------------------------------------------------------
+    let answers = reduced_answers(thorough);
+    let max_dev = run.tier.pick(2, 3);
+    let npos = 12usize;
+    let n_scripts = count_scripts(npos as u64, answers.len() as u64, max_dev as u64);
+    // work items: the empty script, and every single first deviation (its extensions are enumerated inside the worker)
+    let mut prefixes: Vec<Vec<(usize, usize)>> = vec![vec![]];
+    for p in 0..npos {
+        for a in 0..answers.len() {
+            prefixes.push(vec![(p, a)]);
+        }
+    }
+    let executed_scripts = AtomicU64::new(0);
+    let max_requests = AtomicU64::new(0);
+    let configs: Vec<(bool, usize, bool)> = vec![(true, 0, false), (false, 0, false), (true, 1, false), (true, 0, true), (false, 1, true)];
+    run.space(
+        &format!("B: all scripts with <= {max_dev} deviations over 12 hop positions x {} answers, x {{allow=true/hset0/sync, allow=false/hset0/sync, allow=true/hset1/sync, allow=true/hset0/async, allow=false/hset1/async}}", answers.len()),
+        n_scripts * configs.len() as u64,
+        true,
+    );
+    run.extra("spaceB_answers", json!(answers.iter().map(|a| a.label).collect::<Vec<_>>()));
+    let b_out: Mutex<std::collections::BTreeMap<String, u64>> = Mutex::new(Default::default());
+    let answers_ref = &answers;
+    let n_answers = answers.len();
+    let run_one = |script: &[(usize, usize)], local: &mut std::collections::BTreeMap<String, u64>| {
+        executed_scripts.fetch_add(1, Ordering::Relaxed);
+        for &(allow, hset, is_async) in &configs {
+            let sc: Vec<(usize, Answer, Option<&'static str>)> = script
+                .iter()
+                .map(|(p, a)| {
+                    let an = &answers_ref[*a];
+                    (*p, Answer { status: an.status, location: an.location.map(|l| l.as_bytes().to_vec()), body: vec![] }, an.truth)
+                })
+                .collect();
+            let sc2 = sc.clone();
+            let obs = run_script(
+                move |i| match sc2.iter().find(|d| d.0 == i) {
+                    Some(d) => d.1.clone(),
+                    None => default_answer(i),
+                },
+                allow,
+                hset,
+                is_async,
+            );
+            run.eval();
+            run.states(1);
+            run.transitions(obs.seen.len() as u64);
+            run.traces(1);
+            let case = json!({"space":"B","script": script.iter().map(|(p,a)| json!({"hop":p,"answer":answers_ref[*a].label})).collect::<Vec<_>>(),
+                              "allow_redirects":allow,"header_set":hset,"async":is_async});
+            judge(run, "B", allow, &obs, &|k| sc.iter().find(|d| d.0 + 1 == k).and_then(|d| d.2), &case);
+            let consumed = script.iter().all(|(p, _)| *p < obs.seen.len());
+            if consumed {
+                run.nontrivial_n(1);
+            }
+            max_requests.fetch_max(obs.seen.len() as u64, Ordering::Relaxed);
+            *local.entry(format!("B:allow={allow}:{}", obs.result)).or_default() += 1;
+        }
+    };
+    par::for_each(&prefixes, |prefix| {
+        let local = std::cell::RefCell::new(std::collections::BTreeMap::<String, u64>::new());
+        let mut script = prefix.clone();
+        let remaining = if prefix.is_empty() { 0 } else { max_dev - 1 };
+        extend(&mut script, remaining, npos, n_answers, &|s| run_one(s, &mut local.borrow_mut()));
+        let mut g = b_out.lock().unwrap();
+        for (k, v) in local.into_inner() {
+            *g.entry(k).or_default() += v;
+        }
+    });
+    if executed_scripts.load(Ordering::Relaxed) != n_scripts {
+        kit::ev::machinery(format!("C27: enumerated {} scripts, expected {n_scripts}", executed_scripts.load(Ordering::Relaxed)));
+    }
+    for (k, v) in b_out.lock().unwrap().iter() {
+        run.outcome_n(k.clone(), *v);
+    }
+    {
+        let g = b_out.lock().unwrap();
+        let has = |needle: &str| g.keys().any(|k| k.contains(needle));
+        run.extra("spaceB_max_requests_in_one_call", json!(max_requests.load(Ordering::Relaxed)));
+        if run.violation_count() == 0 && !(max_requests.load(Ordering::Relaxed) >= 11 && has("TooManyRedirects") && has("Ok(200)") && has("RedirectTargetDisallowed") && has("RedirectDisallowed")) {
+            kit::ev::machinery(format!("C27: space B did not reach all expected outcome classes: {:?}", g.keys().collect::<Vec<_>>()));
+        }
+    }
+
+    // ---- space C: classifier sweep -------------------------------------------------------------
+    classifier_sweep(run, thorough);
+    CAP.report(run);
+}
+
+fn classify(uri_text: &str) -> Option<bool> {
+    uri_text.parse::<Uri>().ok().map(|u| hooks::redirect_target_is_non_global(&u))
+}
+
+fn classifier_sweep(run: &Run, thorough: bool) {
+    // IPv4: which low-16 words are visited for a given high word
+    let full16: Vec<u32> = vec![0xC000, 0xC633, 0xCB00]; // 192.0/16, 198.51/16, 203.0/16 contain the /24 documentation blocks
+    let lows: [u32; 6] = [0x0000, 0x0001, 0x00ff, 0x0100, 0xfffe, 0xffff];
+    let stats = Mutex::new([0u64; 4]); // forbidden&blocked, forbidden&passed, other&blocked, other&passed
+    let n_v4: u64 = if thorough { 1u64 << 32 } else { 65536 * lows.len() as u64 + full16.len() as u64 * 65536 };
+    run.space(
+        if thorough { "C: classifier sweep over ALL 2^32 IPv4 addresses (dotted-decimal URI through host_is_non_global)" } else { "C: classifier sweep over every /16 x 6 low words + 3 full /16 (IPv4, dotted-decimal URI through host_is_non_global)" },
+        n_v4,
+        true,
+    );
+    let check = |text: &str, truth: Option<&'static str>, local: &mut [u64; 4], fam: &str| {
+        let Some(blocked) = classify(text) else {
+            kit::ev::machinery(format!("C27: sweep URI {text} does not parse"));
+        };
+        let idx = match (truth.is_some(), blocked) {
+            (true, true) => 0,
+            (true, false) => 1,
+            (false, true) => 2,
+            (false, false) => 3,
+        };
+        local[idx] += 1;
+        if idx == 1 {
+            CAP.violation(run, format!("classifier-passes-internal class={} family={fam}", truth.unwrap_or("")), || format!("{text} is in a block the property forbids ({}) but the redirect-target classifier lets it through", truth.unwrap_or("")), || json!({"space":"C","uri":text}));
+        }
+    };
+    par::for_each_index(65536, |hi| {
+        let hi = hi as u32;
+        let mut local = [0u64; 4];
+        let mut buf = String::with_capacity(32);
+        let mut one = |a: u32, local: &mut [u64; 4]| {
+            use std::fmt::Write;
+            buf.clear();
+            let b = a.to_be_bytes();
+            let _ = write!(buf, "http://{}.{}.{}.{}/", b[0], b[1], b[2], b[3]);
+            check(&buf, net::v4_class(a), local, "ipv4");
+        };
+        if thorough || full16.contains(&hi) {
+            for lo in 0..65536u32 {
+                one(hi << 16 | lo, &mut local);
+            }
+        } else {
+            for lo in lows {
+                one(hi << 16 | lo, &mut local);
+            }
+        }
+        let n: u64 = local.iter().sum();
+        run.evals(n);
+        run.nontrivial_n(local[0] + local[1]);
+        let mut g = stats.lock().unwrap();
+        for i in 0..4 {
+            g[i] += local[i];
+        }
+    });
+    {
+        let g = stats.lock().unwrap();
+        run.outcome_n("C:ipv4:named-block&classified-non-global", g[0]);
+        run.outcome_n("C:ipv4:named-block&PASSED", g[1]);
+        run.outcome_n("C:ipv4:unnamed&classified-non-global(not demanded)", g[2]);
+        run.outcome_n("C:ipv4:unnamed&passed", g[3]);
+        if run.violation_count() == 0 && (g[0] == 0 || g[3] == 0) {
+            kit::ev::machinery("C27: IPv4 sweep is vacuous");
+        }
+    }
+
+    // mapped spellings: every /16 (quick: 6 low words + 3 full /16; thorough: every /24 x 4 low bytes)
+    let stats_m = Mutex::new([0u64; 4]);
+    let n_m: u64 = if thorough { (1u64 << 24) * 4 } else { n_v4 };
+    run.space("C: IPv4-mapped IPv6 spellings [::ffff:h:l] of the IPv4 sweep set (thorough: every /24 x low byte in {0,1,254,255})", n_m, true);
+    par::for_each_index(65536, |hi| {
+        let hi = hi as u32;
+        let mut local = [0u64; 4];
+        let mut buf = String::with_capacity(40);
+        let mut one = |a: u32, local: &mut [u64; 4]| {
+            use std::fmt::Write;
+            buf.clear();
+            let _ = write!(buf, "http://[::ffff:{:x}:{:x}]/", a >> 16, a & 0xffff);
+            check(&buf, net::v6_class(net::V6_MAPPED_PREFIX | a as u128), local, "ipv4-mapped");
+        };
+        if thorough {
+            for mid in 0..256u32 {
+                for lo in [0u32, 1, 254, 255] {
+                    one(hi << 16 | mid << 8 | lo, &mut local);
+                }
+            }
+        } else if full16.contains(&hi) {
+            for lo in 0..65536u32 {
+                one(hi << 16 | lo, &mut local);
+            }
+        } else {
+            for lo in lows {
+                one(hi << 16 | lo, &mut local);
+            }
+        }
+        let n: u64 = local.iter().sum();
+        run.evals(n);
+        run.nontrivial_n(local[0] + local[1]);
+        let mut g = stats_m.lock().unwrap();
+        for i in 0..4 {
+            g[i] += local[i];
+        }
+    });
+    {
+        let g = stats_m.lock().unwrap();
+        run.outcome_n("C:mapped:named-block&classified-non-global", g[0]);
+        run.outcome_n("C:mapped:named-block&PASSED", g[1]);
+        run.outcome_n("C:mapped:unnamed&classified-non-global(not demanded)", g[2]);
+        run.outcome_n("C:mapped:unnamed&passed", g[3]);
+    }
+
+    // IPv6: all 2^16 leading segments x tails
+    let stats6 = Mutex::new([0u64; 4]);
+    let tails: [u128; 3] = [0, 1, (1u128 << 112) - 1];
+    run.space("C: all 2^16 leading IPv6 segments x tails {::, ::1, all-ones}", 65536 * 3, true);
+    par::for_each_index(65536, |seg| {
+        let mut local = [0u64; 4];
+        for t in tails {
+            let a: u128 = (seg as u128) << 112 | t;
+            if a >> 32 == net::V6_MAPPED_PREFIX >> 32 {
+                continue;
+            }
+            let ip = std::net::Ipv6Addr::from(a);
+            let text = format!("http://[{ip}]/");
+            check(&text, net::v6_class(a), &mut local, "ipv6");
+        }
+        let n: u64 = local.iter().sum();
+        run.evals(n);
+        run.nontrivial_n(local[0] + local[1]);
+        let mut g = stats6.lock().unwrap();
+        for i in 0..4 {
+            g[i] += local[i];
+        }
+    });
+    {
+        let g = stats6.lock().unwrap();
+        run.outcome_n("C:ipv6:named-block&classified-non-global", g[0]);
+        run.outcome_n("C:ipv6:named-block&PASSED", g[1]);
+        run.outcome_n("C:ipv6:unnamed&classified-non-global(not demanded)", g[2]);
+        run.outcome_n("C:ipv6:unnamed&passed", g[3]);
+        if run.violation_count() == 0 && (g[0] == 0 || g[3] == 0) {
+            kit::ev::machinery("C27: IPv6 sweep is vacuous");
+        }
+    }
+    run.sample(json!({"space":"C","uri":"http://100.127.255.255/","named_block": net::v4_class(0x647f_ffff), "classified_non_global": classify("http://100.127.255.255/")}));
+    run.sample(json!({"space":"C","uri":"http://100.128.0.0/","named_block": net::v4_class(0x6480_0000), "classified_non_global": classify("http://100.128.0.0/")}));
+    run.sample(json!({"space":"C","uri":"http://[fdff:ffff::1]/","named_block": net::host_class("[fdff:ffff::1]"), "classified_non_global": classify("http://[fdff:ffff::1]/")}));
+}
+
+fn replay_case(run: &Run, c: &Value) {
+    run.eval();
+    run.states(1);
+    run.transitions(1);
+    match c["space"].as_str() {
+        Some("A") => {
+            let pos = c["pos"].as_u64().unwrap_or(0) as usize;
+            let text = c["location"].as_str().unwrap_or("").to_string();
+            let truth = full_alphabet().into_iter().find(|l| l.text == text).and_then(|l| l.truth);
+            let t2 = text.clone();
+            let obs = run_script(
+                move |i| if i < pos { default_answer(i) } else if i == pos { Answer::redirect(302, &t2) } else { Answer::ok() },
+                true,
+                0,
+                c["async"].as_bool().unwrap_or(false),
+            );
+            println!("replay A pos={pos} location={text} (denotes {truth:?}): requests {:?} result {}", obs.seen.iter().map(|s| &s.uri).collect::<Vec<_>>(), obs.result);
+            judge(run, "A", true, &obs, &|k| if k == pos + 1 { truth } else { None }, c);
+        }
+        Some("B") => {
+            let answers = reduced_answers(true);
+            let sc: Vec<(usize, Answer, Option<&'static str>)> = c["script"]
+                .as_array()
+                .cloned()
+                .unwrap_or_default()
+                .iter()
+                .map(|d| {
+                    let an = answers.iter().find(|a| Some(a.label) == d["answer"].as_str()).unwrap_or_else(|| kit::ev::machinery("replay: unknown answer label"));
+                    (d["hop"].as_u64().unwrap_or(0) as usize, Answer { status: an.status, location: an.location.map(|l| l.as_bytes().to_vec()), body: vec![] }, an.truth)
+                })
+                .collect();
+            let allow = c["allow_redirects"].as_bool().unwrap_or(true);
+            let sc2 = sc.clone();
+            let obs = run_script(
+                move |i| match sc2.iter().find(|d| d.0 == i) {
+                    Some(d) => d.1.clone(),
+                    None => default_answer(i),
+                },
+                allow,
+                c["header_set"].as_u64().unwrap_or(0) as usize,
+                c["async"].as_bool().unwrap_or(false),
+            );
+            println!("replay B {}: requests {:?} result {}", c["script"], obs.seen.iter().map(|s| (&s.uri, &s.headers)).collect::<Vec<_>>(), obs.result);
+            judge(run, "B", allow, &obs, &|k| sc.iter().find(|d| d.0 + 1 == k).and_then(|d| d.2), c);
+        }
+        Some("C") => {
+            let u = c["uri"].as_str().unwrap_or("");
+            let truth = net::uri_host_class(u);
+            let got = classify(u);
+            println!("replay C {u}: named block {truth:?}, classified non-global: {got:?}");
+            if truth.is_some() && got == Some(false) {
+                CAP.violation(run, "classifier-passes-internal (replay)", || format!("{u} passes"), || c.clone());
+            }
+        }
+        _ => kit::ev::machinery("replay: unknown space"),
+    }
 }
